@@ -1,6 +1,6 @@
 SPECIFICATION Spec
 CONSTANTS
-  Trees <- TreesB
+  Trees <- TreesR
   Flavs <- AllFlavs
   MaxIter = 30
   SeqMaxUnits = 6
